@@ -64,6 +64,8 @@ ASSUMPTIONS = [
 ]
 
 SITEGEN = os.path.join(vlib.VERIF, "tools", "sitegen")
+STALL = 300.0   # seconds a granted thread may take to reach its next scheduling point (first-use compilation
+                # inside one step under heavy machine load has been seen to take > 60 s)
 
 
 def _points():
@@ -290,8 +292,14 @@ def impl_explore(job):
     st = None
     deadline = time.time() + job.get("seconds", 60)
     for ex, (outs, same, excs), st in sched.explore(lambda: _make_execution(scn), pts, max_execs=job.get("max_execs"),
-                                              root=os.path.join(vlib.REPO, "sparse"), deadline=deadline):
+                                              root=os.path.join(vlib.REPO, "sparse"), deadline=deadline,
+                                              stall_timeout=STALL):
         execs.append({"sched": ex.trace, "outs": outs, "same": same, "stalled": ex.stalled, "excs": excs})
+        if ex.stalled:
+            # a granted thread did not reach its next scheduling point in time (machine load, or first-use
+            # compilation inside the step, or a genuine dead-lock): the depth-first state is no longer reliable
+            return {"table": [[list(map(_jsonable, k)), v] for k, v in tbl.items()], "execs": execs,
+                    "complete": False, "alias": alias_map(make_arrays())}
     return {"table": [[list(map(_jsonable, k)), v] for k, v in tbl.items()], "execs": execs,
             "complete": bool(st and st.complete), "alias": alias_map(make_arrays())}
 
@@ -308,7 +316,7 @@ def impl_random(job):
     for _ in range(job["n"]):
         fns, collect = _make_execution(scn)
         r = random.Random(rng.random())
-        s = sched.Scheduler(pts, root=os.path.join(vlib.REPO, "sparse"))
+        s = sched.Scheduler(pts, root=os.path.join(vlib.REPO, "sparse"), stall_timeout=STALL)
         ex = s.run(fns, [], chooser=lambda en, step: r.choice(en))
         outs, same, excs = collect()
         execs.append({"sched": ex.trace, "outs": outs, "same": same, "stalled": ex.stalled, "excs": excs})
@@ -332,7 +340,7 @@ def impl_schedule(job):
     specs = list(scn["setup"]) + [s for p in scn["threads"] for s in p]
     tbl = sequential_table(specs)
     fns, collect = _make_execution(scn)
-    s = sched.Scheduler(pts, root=os.path.join(vlib.REPO, "sparse"))
+    s = sched.Scheduler(pts, root=os.path.join(vlib.REPO, "sparse"), stall_timeout=STALL)
     ex = s.run(fns, job["sched"])
     outs, same, excs = collect()
     lab = {v: k for k, v in _points().items()}
@@ -687,13 +695,13 @@ def campaign(build, tier, seed, report, budget=1):
     # one pool for everything (workers import numba once)
     flat = [(k, fn, j) for k, fn in order for j in by_kind.get(k, [])]
     res = vlib.run_impl("props.c13", "impl_dispatch", [(fn, j) for _k, fn, j in flat], workers=14,
-                        per_case_timeout=150.0 if quick else 700.0)
+                        per_case_timeout=600.0 if quick else 1500.0)
     for (k, _fn, j), r in zip(flat, res, strict=True):
         results.setdefault(k, []).append((j, r))
 
     # ---- protocol-level executions judged in Coq
     lits, meta = [], []
-    incomplete, broken_jobs = [], []
+    incomplete, broken_jobs, stalled = [], [], []
     per_scn = {}
     for kind in ("explore", "random", "schedule"):
         for j, r in results.get(kind, []):
@@ -706,7 +714,9 @@ def campaign(build, tier, seed, report, budget=1):
             per_scn[scn["name"]] = {"kind": kind, "executions": len(r["execs"]), "exhaustive": kind == "explore" and r["complete"]}
             for e in r["execs"]:
                 if e.get("stalled"):
-                    broken_jobs.append({"scenario": scn["name"], "stalled": e["sched"]})
+                    stalled.append({"scenario": scn["name"], "schedule": e["sched"]})
+                    if scn["name"] not in incomplete:
+                        incomplete.append(scn["name"])
                     continue
                 lits.append(case_literal(scn, r["table"], e, r.get("alias")))
                 meta.append((kind, scn, e))
@@ -776,7 +786,7 @@ def campaign(build, tier, seed, report, budget=1):
             mixed_steps += run["steps"]
             mixed_switches += run["switches"]
             if run["stalled"]:
-                broken_jobs.append({"mixed": j, "stalled": True})
+                stalled.append({"mixed_seed": j["seed"], "progs": run["progs"]})
             if not run["same"]:
                 viol.append({"property": "C13", "op": "operand_mutated", "kind": "value", "clause": None,
                              "case": run, "impl": run["outs"], "replay_py": _mixed_replay(j),
@@ -830,6 +840,10 @@ def campaign(build, tier, seed, report, budget=1):
                    "(scenario, schedule) pairs in which at least two threads are interleaved")
     cov["exhaustive"] = not incomplete
     cov["incomplete_scenarios"] = incomplete
+    cov["stalled_executions"] = stalled
+    if stalled:
+        report["notes"].append(f"{len(stalled)} scheduled execution(s) stalled (a granted thread did not reach its next "
+                               f"scheduling point within {STALL:.0f}s) and were not judged; see coverage.stalled_executions")
     cov["scenarios"] = per_scn
     cov["branch_tags"] = hist
     cov["d13_executions"] = d13_count
